@@ -1,6 +1,7 @@
 // Contracts + harnesses for lora-modulation (C15 airtime side, C16, C17 symbol conversions).
 // @inject file=lora-modulation/src/lib.rs mod=verif_modulation
 // @job pkg=lora-modulation zflags=function-contracts
+// @requires common_tape
 //
 // The contract of `time_on_air_us` is the Semtech modem airtime formula (AN1200.13 / SX127x
 // datasheet 4.1.1.7) evaluated in exact (64-bit, no overflow possible) integer arithmetic with the
@@ -12,6 +13,7 @@
 // @contract file=lora-modulation/src/lib.rs fn=impl BaseBandModulationParams :: fn time_on_air_us
 // | #[cfg_attr(kani, kani::ensures(|r: &u32| *r as u64 == crate::verif_modulation::spec_toa(self, preamble, explicit_header, len)))]
 use super::*;
+use crate::verif_tape as tape;
 
 pub(crate) const SFS: [SpreadingFactor; 8] = [
     SpreadingFactor::_5, SpreadingFactor::_6, SpreadingFactor::_7, SpreadingFactor::_8,
@@ -50,30 +52,23 @@ pub(crate) fn spec_toa(p: &BaseBandModulationParams, preamble: Option<u8>, expli
     }) as u64
 }
 
-fn any_cr() -> CodingRate {
-    let i: usize = kani::any();
-    kani::assume(i < 4);
-    CRS[i]
-}
-fn any_bw() -> Bandwidth {
-    let i: usize = kani::any();
-    kani::assume(i < 10);
-    BWS[i]
-}
+fn any_cr() -> CodingRate { CRS[tape::below(4)] }
+fn any_bw() -> Bandwidth { BWS[tape::below(10)] }
 
 /// One spreading factor per harness (concrete), bandwidth / coding rate / header / length / preamble symbolic:
 /// exactly one top-level call, so the function contract is what is checked (proof_for_contract).
 /// The 8 harnesses together cover the whole 8 x 10 x 4 x 256 x 2 x 257 space.
 fn toa_contract_for(sf: SpreadingFactor) {
+    tape::init();
     let p = BaseBandModulationParams::new(sf, any_bw(), any_cr());
-    let preamble: Option<u8> = kani::any();
-    let explicit: bool = kani::any();
-    let len: u8 = kani::any();
+    let preamble: Option<u8> = tape::opt_u8();
+    let explicit: bool = tape::boolean();
+    let len: u8 = tape::u8();
     let r = p.time_on_air_us(preamble, explicit, len);
     // the same postcondition once more as a plain assertion, so that a concrete playback of a
     // counterexample (native execution, where contract attributes are inert) still fails
     assert!(r as u64 == spec_toa(&p, preamble, explicit, len), "time_on_air_us == Semtech formula");
-    assert!(true, "verif-reached: end of harness");
+    kani::cover!(true, "verif-reached: end of harness");
 }
 // @verif props=C16 obligation=time_on_air_us.contract[SF5] label=proved-complete tier=quick unit=time_on_air_us
 #[kani::proof_for_contract(BaseBandModulationParams::time_on_air_us)]
@@ -102,14 +97,15 @@ fn c16_toa_sf12() { toa_contract_for(SpreadingFactor::_12) }
 
 /// monotone in the payload length (two calls of the real function, same parameters)
 fn toa_monotone_for(sf: SpreadingFactor) {
+    tape::init();
     let p = BaseBandModulationParams::new(sf, any_bw(), any_cr());
-    let preamble: Option<u8> = kani::any();
-    let explicit: bool = kani::any();
-    let l1: u8 = kani::any();
-    let l2: u8 = kani::any();
+    let preamble: Option<u8> = tape::opt_u8();
+    let explicit: bool = tape::boolean();
+    let l1: u8 = tape::u8();
+    let l2: u8 = tape::u8();
     kani::assume(l1 <= l2);
     assert!(p.time_on_air_us(preamble, explicit, l1) <= p.time_on_air_us(preamble, explicit, l2), "time_on_air_us monotone in len");
-    assert!(true, "verif-reached: end of harness");
+    kani::cover!(true, "verif-reached: end of harness");
 }
 // @verif props=C16 obligation=time_on_air_us.monotone[SF5] label=proved-complete tier=quick
 #[kani::proof]
@@ -141,6 +137,7 @@ fn c16_toa_monotone_sf12() { toa_monotone_for(SpreadingFactor::_12) }
 #[kani::proof]
 #[kani::unwind(11)]
 fn c15_new_ldro_all_pairs() {
+    tape::init();
     let mut s = 0;
     while s < SFS.len() {
         let mut b = 0;
@@ -152,7 +149,7 @@ fn c15_new_ldro_all_pairs() {
         }
         s += 1;
     }
-    assert!(true, "verif-reached: end of harness");
+    kani::cover!(true, "verif-reached: end of harness");
 }
 
 // ---------------------------------------------------------------------------------------- C17 (symbol conversions)
@@ -162,11 +159,12 @@ fn c15_new_ldro_all_pairs() {
 #[kani::proof]
 #[kani::unwind(11)]
 fn c17_delay_in_symbols() {
-    let si: usize = kani::any(); kani::assume(si < 8);
+    tape::init();
+    let si: usize = tape::below(8);
     let mut b = 0;
     while b < BWS.len() {
         let p = BaseBandModulationParams::new(SFS[si], BWS[b], CodingRate::_4_5);
-        let ms: u32 = kani::any();
+        let ms: u32 = tape::u32();
         kani::assume(ms <= 4_000_000); // ms*1000 fits u32 up to 4_294_967
         let n = p.delay_in_symbols(ms);
         let t = spec_tsym_us(SFS[si], BWS[b]);
@@ -174,5 +172,5 @@ fn c17_delay_in_symbols() {
         assert!(n as u64 == exact % 65536, "delay_in_symbols is floor(ms*1000/t_sym) truncated to u16");
         b += 1;
     }
-    assert!(true, "verif-reached: end of harness");
+    kani::cover!(true, "verif-reached: end of harness");
 }
